@@ -5,7 +5,8 @@ from oracle_util import *  # noqa
 from protocol import from_real
 
 ID = "C06"
-LEAN_MODULE = ["SCoda.Props.C06", "SCoda.Props.Notes"]
+LEAN_MODULE = ["SCoda.Props.C06", "SCoda.Props.C06b", "SCoda.Props.Notes"]
+LEVEL = "proof"
 CLAUSES = [
     ("every remaining note-off lies an allowed duration after a remaining note-on of its key; the operation never fails", ["SCoda.C06.durations", "SCoda.C06.total", "SCoda.C06.pairings_twoEl"]),
     ("onset, pitch, channel and velocity of every remaining note unchanged (every note-on of the result is an unchanged input note-on)", ["SCoda.C06.onsets_kept"]),
@@ -14,7 +15,10 @@ CLAUSES = [
      "is closest to the original among the allowed values that fit, and the note is removed exactly when none fits",
      ["SCoda.C06.qnlChannel_spec", "SCoda.C06.validDurations_spec", "SCoda.C06.nearest_spec"]),
     ("glue (first half): on a sorted well-formed list the per-channel pairings are exactly its notes, no imputation", ["SCoda.Notes.pairings_notes"]),
-    ("glue (second half): the notes of the rebuilt, re-sorted list are the output pairings", None),
+    ("the notes of the result are the original notes, each removed or given a new end on + x where x is an allowed value that fits before the next onset of its "
+     "channel and pitch (and is not longer than the note when extension is disabled), closest to the original duration; removed exactly when none fits; "
+     "hence allowed durations only, onsets/pitch/channel/velocity unchanged, no overlap, well-formed result",
+     ["SCoda.C06.qnl_notes", "SCoda.C06.qnl_durations", "SCoda.C06.qnl_no_overlap", "SCoda.C06.qnl_wf"]),
 ]
 RULE = ("well-formed multi-channel note sets (<=8 notes, back-to-back repeated pitches, very short notes) x value lists "
         "(defaults, lists with duplicates, single values) x extension on/off; non-trivial = some note's duration not in the list")
@@ -26,6 +30,9 @@ def o_qnl(inp):
     a = [tuple(m) for m in inp["abs"]]
     values = list(inp["values"])
     dne = inp["dne"]
+    pre, _ = abs_timed(sorted(a, key=lambda m: (m[2], m[1], m[0], -1 if m[3] is None else m[3])))
+    if wf_violations(pre) or any(on >= off for (_, _, on, off, _) in notes_of(pre)):
+        return [("~skip:not-well-formed", "")]
     s = P.mk_abs(a)
     try:
         s.quantise_note_lengths(list(values), do_not_extend=dne)
